@@ -87,7 +87,7 @@ func init() {
 		"(a) valid frames from the reference encoder are cut at every position strictly inside a unit (2/4-byte integer, length-prefixed string, variable byte integer, property identifier + value), remaining length set to the shortened size: must be rejected; A-mode: on N arbitrary bytes the reference decoder classifies and TRUNCATED/5-byte-varint/bad-boolean/undefined-property frames must be rejected. (b) a symbolic 5-byte variable byte integer at the remaining length (15 types), every property length, both subscription identifier positions. (c) every boolean property with a symbolic value >= 2 (254 values, one query). (d) a symbolic undefined identifier (229 values, one symbol) in the property section of every type, followed by 0,1,2,4 arbitrary bytes.",
 		sQuick+" (cuts: strings up to 128 bytes); "+aQuick+" (classifier: one byte less)", sThor+"; "+aThor, outS+"; "+outA+"; the raw PUBLISH payload is exempt from (a) as the property states")
 	meta("C10", "model_checking",
-		"WriteTo of every C01 shape (plus QoS 3, empty lists, zero values, Undefined) against three writer stubs: accept all, fail before writing with error E, accept a symbolic k < frame length and return (k,E). Exactly one Write call, bytes are exactly one frame by their own remaining length, returned count and error are the writer's, and the integer String() prints before ' bytes' (a rope query on the symbolic fmt result) equals the frame length. Also: write and render, apply one setter, write again (stale cached sizes); 5000- and 70000-byte packets against writers that accept only the first k bytes for every k < 40, the middle and the end.",
+		"WriteTo of every C01 shape (plus QoS 3, empty lists, zero values, Undefined) against three writer stubs: accept all, fail before writing with error E, accept a symbolic k < frame length and return (k,E). The bytes handed to the writer (over however many Write calls) are exactly one frame by their own remaining length, no Write follows a Write that reported an error, returned count and error are the writer's, and the integer String() prints before ' bytes' (a rope query on the symbolic fmt result) equals the frame length. Also: write and render, apply one setter, write again (stale cached sizes); 5000-, 20000- and 70000-byte packets against writers that accept only the first k bytes for every k < 40, around 4096/16384/32768/65536, the middle and the end; write, apply one setter with an argument that shrinks, keeps or grows the frame, write again.",
 		sQuick+" (short writes: frames without boundary-length fields)", sThor, outS)
 	meta("C11", "model_checking",
 		"The same packet is encoded seven times with String, Dump, WellFormed and all accessors in between; the engine runs map iterations in insertion order, reversed, alternating per Range execution (length pass vs write pass), and rotated by 1..3 — the iteration order is an explicit schedule parameter of the interpreter instead of the runtime's random choice. All encodings must be byte-identical and no accessor may change. A second process is modelled by re-running the package initialisers under another iteration order and rebuilding the packet from the same values. A counterexample order is confirmed natively by encoding the packet 2000 times until two outputs differ, a cross-process one by running the case in up to 24 processes.",
@@ -215,6 +215,10 @@ func jobsFor(prop, tier string) []*Job {
 			for _, sh := range smallWireShapes(t, thorough) {
 				add("prefix/"+tn(t), "ZZ_C04_prefix", []string{"prefix"}, sh.Args()...)
 			}
+			// one field at the top of the 16-bit length range, fully present
+			for _, sh := range bigFieldShapes(t, thorough) {
+				add("big/"+tn(t), "ZZ_C04_big", []string{"big"}, sh.Args()...)
+			}
 		}
 	case "C05":
 		for t := 0; t <= 15; t++ {
@@ -246,6 +250,11 @@ func jobsFor(prop, tier string) []*Job {
 				}
 				add("many/"+tn(t), "ZZ_C05_many", []string{"many"}, sh.Args()...)
 			}
+			// one field at the top of the 16-bit length range: a width that
+			// wraps to 0 makes a list decoder spin
+			for _, sh := range bigFieldShapes(t, thorough) {
+				add("bigfield/"+tn(t), "ZZ_C05_many", []string{"many"}, sh.Args()...)
+			}
 		}
 	case "C06":
 		for n := 0; n <= nmax(0, 5, 7); n++ {
@@ -257,7 +266,7 @@ func jobsFor(prop, tier string) []*Job {
 			}
 		}
 		// large frames followed by other frames
-		for _, big := range []int{200, 5000, 20000} {
+		for _, big := range []int{200, 5000, 20000, 70000} {
 			sh := Sh{Typ: 3, Slen: 1, Nz: 2, Big: big}
 			add("one/S/"+tn(3), "ZZ_C06_smode", []string{"one"}, sh.Args()...)
 			shc := Sh{Typ: 1, Slen: 1, Nz: 2, Will: 1, Big: big}
@@ -322,7 +331,7 @@ func jobsFor(prop, tier string) []*Job {
 		}
 	case "C08":
 		for mode := 0; mode <= 2; mode++ {
-			for _, big := range []int{200, 20000} {
+			for _, big := range []int{200, 20000, 70000} {
 				add("bigcut", "ZZ_C08_bigcut", []string{"bigcut"}, append([]int{mode}, Sh{Typ: 3, Slen: 1, Nz: 2, Big: big, Qos: 1}.Args()...)...)
 				add("bigcut", "ZZ_C08_bigcut", []string{"bigcut"}, append([]int{mode}, Sh{Typ: 1, Slen: 1, Nz: 2, Will: 1, Big: big}.Args()...)...)
 			}
@@ -394,7 +403,7 @@ func jobsFor(prop, tier string) []*Job {
 		}
 		// large payloads (second Write, chunked writes ...): short writes at
 		// concrete positions in and after the header
-		for _, big := range []int{5000, 70000} {
+		for _, big := range []int{5000, 20000, 70000} {
 			sh := Sh{Typ: 3, Slen: 1, Nz: 2, Big: big, Qos: 1}
 			add("bigwrite/Publish", "ZZ_C10_bigwrite", []string{"bigwrite"}, sh.Args()...)
 			shc := Sh{Typ: 1, Slen: 1, Nz: 2, Will: 1, Big: big}
@@ -410,7 +419,9 @@ func jobsFor(prop, tier string) []*Job {
 				if t == 3 {
 					sh.Qos = 1
 				}
-				add("rewrite/"+tn(t), "ZZ_C10_rewrite", []string{"rewrite"}, append([]int{k}, sh.Args()...)...)
+				for _, l := range []int{0, 1, 2} {
+					add("rewrite/"+tn(t), "ZZ_C10_rewrite", []string{"rewrite"}, append([]int{k, l}, sh.Args()...)...)
+				}
 			}
 		}
 		add("odd", "ZZ_C10_odd", []string{"undefined"}, 0)
@@ -459,6 +470,18 @@ func jobsFor(prop, tier string) []*Job {
 					for _, sh := range shapes {
 						add("step/"+tn(t), "ZZ_C12_step", []string{"step"}, append([]int{k, l}, sh.Args()...)...)
 					}
+				}
+				// long arguments: property lengths and remaining lengths of
+				// two and three bytes after the setter
+				ls := []int{200}
+				if t == 1 || t == 3 || thorough {
+					ls = append(ls, 20000)
+				}
+				if thorough {
+					ls = append(ls, 65535)
+				}
+				for _, l := range ls {
+					add("step/"+tn(t), "ZZ_C12_step", []string{"step"}, append([]int{k, l}, shapes[0].Args()...)...)
 				}
 			}
 			// histories from a fresh packet
@@ -567,7 +590,7 @@ func jobsFor(prop, tier string) []*Job {
 		}
 		add("vb/api", "ZZ_C15_api", []string{"api"})
 	case "C16":
-		for m := 0; m <= 2; m++ {
+		for m := 0; m <= 4; m++ {
 			add("disp", "ZZ_C16_disp", []string{"disp"}, m)
 		}
 		add("two", "ZZ_C16_two", []string{"two"})
@@ -651,6 +674,23 @@ func jobsFor(prop, tier string) []*Job {
 		// renderer into a violation quickly
 		for _, j := range jobs {
 			j.StepBudget = 40000
+		}
+		// many list elements: positions with two, three and four digits
+		for t := 1; t <= 15; t++ {
+			if t == 12 || t == 13 {
+				continue
+			}
+			for _, n := range []int{11, 101, 1001} {
+				if n == 1001 && !thorough && t != 3 && t != 8 && t != 10 && t != 1 {
+					continue
+				}
+				sh := Sh{Typ: t, Slen: 1, NUser: n, NList: n * b2i(hasList(t) || t == 3), Nz: 3}
+				if t == 1 {
+					sh.Will = 1
+				}
+				j := add("many/"+tn(t), "ZZ_C19_many", []string{"many"}, sh.Args()...)
+				j.StepBudget = 40000 + 4000*n
+			}
 		}
 	}
 	return jobs
